@@ -172,7 +172,7 @@ func scenC08(r *Run, job *Job) {
 			b.Subs = pSubs[idx-1]
 			b.OnShutdown = pShut
 			if survivor && idx == 1 {
-				b.KillLatency = 25 * time.Second // the supervisor call gives up after 9 s, the wait for the exit after 2 more
+				b.KillLatency = 25 * time.Second                                   // the supervisor call gives up after 9 s, the wait for the exit after 2 more
 				b.OnShutdown = []string{"poll", "ignore", "ignore"}[survivorPause] // keeps polling after SHUTDOWN, or sits still until the suffix
 			}
 			for i, m := range planModes {
